@@ -1,3 +1,158 @@
-import AslModel.Array
+import AslProofs.ArrayRefine
+/-!
+# C01 — Array, Stack and Queue behave as a sequence for every operation history
+
+Property theorems only.  Model: `AslModel/Array.lean` (what `Driver/C01.lean` runs against the real library
+on every check).  Reference semantics: `AslProofs/ArraySpec.lean` (handles ↦ shared sequences; no capacity,
+no reference count, no storage).  Helper lemmas: `AslProofs/Array*.lean`.
+
+* `layerB_refines`: the member functions, written as the code's sequence of placement-construct / destroy /
+  `memmove` / `realloc` steps on raw cells, never touch a cell outside the block or an unconstructed cell,
+  construct and destroy each element exactly once (the explicit live counter moves with the length), and
+  compute the list functions `take/++/filter/…` — for every block, every capacity, every argument in range.
+* `array_refines_seq_partial`: every finite history, through any handles and clones, in which no operation
+  increases the capacity of a block whose `rc > 1`, produces on the model exactly the results and exactly the
+  per-handle `(elements, rc)` views of the reference semantics, and never leaves live storage.
+* `array_full_counterexample`: without that hypothesis the statement is false (known finding `shared-growth`).
+* `lifecycle`: live objects = total length of live blocks in every reachable state; all handles dropped ⇒ no
+  block left and no live object.
+-/
 namespace C01
+open AslModel.Arr AslProofs.Arr AslProofs.ArrSpec
+
+variable {α : Type}
+
+/-! ## block layer -/
+
+/-- Every member function implements its list function on every well-formed block (any length, any spare
+capacity `k`, both the `malloc`+`memcpy` and the `realloc` growth path), staying inside live storage
+(`Refines` demands a `some` result of every primitive) and keeping `live` in step with the length. -/
+theorem layerB_refines (E : Elem α) :
+    (∀ m, Refines (fun s => resize E s m) (fun l => l.take m ++ List.replicate (m - l.length) E.dflt)) ∧
+    (∀ m, Refines (fun s => some (reserve E s m)) (fun l => l)) ∧
+    (∀ (k : Nat) (v : α), Refines (fun s => AslModel.Arr.insert s (k % (s.n + 1)) (.val v)) (fun l => insAt l (k % (l.length + 1)) v)) ∧
+    (∀ i c, Refines (fun s => let i' := i % (s.n + 1); remove E s i' (c % (s.n - i' + 1)))
+      (fun l => let i' := i % (l.length + 1); remAt l i' (c % (l.length - i' + 1)))) ∧
+    (∀ f : α → Bool, Refines (removeIf f) (fun l => l.filter fun v => !f v)) ∧
+    (∀ xs : List α, Refines (fun s => append E s (.vals xs)) (fun l => l ++ xs)) ∧
+    (∀ xs : List α, Refines (fun s => copy E s (.vals xs)) (fun _ => xs)) :=
+  ⟨resize_refines E, refines_res E, refines_ins, refines_rem E, removeIf_refines, append_vals_refines E,
+    copy_vals_refines E⟩
+
+/-- Calls whose argument refers to the same array: `a.insert(k, a[j])`, `a << a[j]` (code after a88e99c),
+`a.append(a)` (code after 5dae6b7), `a.copy(a)`: the element is found again after the block has moved and the
+elements have shifted; nothing is read from released or unconstructed storage. -/
+theorem layerB_self_reference (E : Elem α) :
+    (∀ (s : BS α) (l : List α) (k kk j : Nat) (x : α), Rep s l k → kk ≤ l.length → l[j]? = some x →
+      ∃ s' k', AslModel.Arr.insert s kk (.own j) = some s' ∧ Rep s' (l.take kk ++ x :: l.drop kk) k' ∧
+        s'.rc = s.rc ∧ s'.live = s.live + 1) ∧
+    Refines (fun s => append E s .self) (fun l => l ++ l) ∧
+    Refines (fun s => copy E s .self) (fun l => l) :=
+  ⟨fun s l k kk j x h hk hx => insert_spec s l k kk (.own j) x h hk hx, append_self_refines E, copy_self_refines E⟩
+
+/-- the hypotheses of `layerB_refines` are satisfiable: a block at capacity (the growth path of `insert`) -/
+example : Rep (⟨[some 1, some 2, some 3], 3, 1, 3, false⟩ : BS Nat) [1, 2, 3] 0 := ⟨rfl, rfl, by decide⟩
+
+/-! ## histories -/
+
+/-- the full statement: every history on the model gives what the reference semantics gives -/
+def array_refines_seq_full [DecidableEq α] (E : Elem α) : Prop :=
+  ∀ ops : List (Op α), ∃ st', run E St.init ops = some (st', (specRun E Sp.init ops).2)
+
+/-- For every finite history in which no operation increases the capacity of a block whose `rc > 1`
+(and every `sort` terminates inside its sequence — see `quicksort_full`), the model never leaves live
+storage and every call result and every handle's `(elements, rc())` equal those of the reference semantics. -/
+theorem array_refines_seq_partial [DecidableEq α] (E : Elem α) (ops : List (Op α))
+    (hsafe : AllSafe E St.init Sp.init ops) :
+    ∃ st', run E St.init ops = some (st', (specRun E Sp.init ops).2) ∧ Good st' (specRun E Sp.init ops).1 :=
+  run_sim E ops good_init hsafe
+
+/-- what the driver runs: an operation is skipped exactly when the guard holds, otherwise it is `step` -/
+theorem driver_step [DecidableEq α] (E : Elem α) (st : St α) (op : Op α) :
+    stepG E st op = if guard E st (normOp op) = true then some (st, Res.skip) else step E st (normOp op) := rfl
+
+def intE : Elem Int := ⟨0, 4, fun a b => a < b, fun v => v⟩
+
+/-- `a = []; b = a; a << 0 << 1 << 2 << 3`: the fourth append reallocates the block `b` still points to -/
+def sharedGrowth : List (Op Int) := [.new 0, .cp 1 0, .app 0 0, .app 0 1, .app 0 2, .app 0 3]
+
+/-- without the hypothesis the statement is false: after the growth, handle `b` dangles (the model's
+observation of slot 1 is an access to a released block) — known finding `shared-growth` -/
+theorem array_full_counterexample : ¬ array_refines_seq_full intE := by
+  intro h
+  obtain ⟨st', h1⟩ := h sharedGrowth
+  have : (run intE St.init sharedGrowth).isNone = true := by decide
+  rw [h1] at this
+  cases this
+
+/-- the guard of the driver rejects exactly the offending operation of that history -/
+example : guard intE ((run intE St.init (sharedGrowth.take 5)).get (by decide)).1 (.app 0 3) = true := by decide
+
+/-- a checkable form of the hypothesis for sort-free histories -/
+def allSafeB [DecidableEq α] (E : Elem α) : St α → Sp α → List (Op α) → Bool
+  | _, _, [] => true
+  | st, sp, op :: ops =>
+    !guard E st (normOp op) && (match normOp op with | .sort _ _ => false | _ => true) &&
+      match step E st (normOp op) with
+      | some r => allSafeB E r.1 (specStep E sp (normOp op)).1 ops
+      | none => true
+
+theorem allSafeB_sound [DecidableEq α] (E : Elem α) : ∀ (ops : List (Op α)) (st : St α) (sp : Sp α),
+    allSafeB E st sp ops = true → AllSafe E st sp ops := by
+  intro ops
+  induction ops with
+  | nil => intro st sp _; trivial
+  | cons op ops ih =>
+    intro st sp h
+    simp only [allSafeB, Bool.and_eq_true, Bool.not_eq_eq_eq_not, Bool.not_true] at h
+    obtain ⟨⟨h1, h2⟩, h3⟩ := h
+    refine ⟨h1, ?_, ?_⟩
+    · unfold SortOK; split
+      · rename_i hs; rw [hs] at h2; cases h2
+      · trivial
+    · cases hs : step E st (normOp op) with
+      | none => trivial
+      | some r => rw [hs] at h3; exact ih _ _ h3
+
+/-- the hypothesis is satisfiable by a history with sharing, growth across 3 → 6, a self-referential insert,
+a clone and a removal -/
+example : AllSafe intE St.init Sp.init
+    [.new 0, .app 0 1, .app 0 2, .app 0 3, .inso 0 1 2, .cp 1 0, .rem 1 0 1, .clone 2 0, .apnd 2 2, .drop 0] :=
+  allSafeB_sound intE _ _ _ (by decide)
+
+/-! ## lifecycle -/
+
+theorem sumN_eq_zero (bs : List (Option (Raw α))) (h : ∀ (b : Nat) (r : Raw α), bs[b]? ≠ some (some r)) : sumN bs = 0 := by
+  induction bs with
+  | nil => rfl
+  | cons a t ih =>
+    cases a with
+    | none => exact ih (fun b r hb => h (b + 1) r (by simpa using hb))
+    | some r => exact absurd (by simp) (h 0 r)
+
+/-- In every state reachable by a history of the refinement theorem: the number of live element objects
+(constructor calls minus destructor calls) is the total length of the live blocks, every live block is
+referenced by as many handles as its `rc` says (at least one), and when the last handle is gone no block and
+no element object is left. -/
+theorem lifecycle [DecidableEq α] (E : Elem α) (ops : List (Op α)) (hsafe : AllSafe E St.init Sp.init ops) :
+    ∃ st' outs, run E St.init ops = some (st', outs) ∧ st'.live = sumN st'.blocks ∧
+      (∀ (b : Nat) (r : Raw α), st'.blocks[b]? = some (some r) → r.rc = st'.hs.count (some b) ∧ 0 < r.rc) ∧
+      ((∀ slot, st'.occ slot = false) → st'.live = 0 ∧ ∀ (b : Nat) (r : Raw α), st'.blocks[b]? ≠ some (some r)) := by
+  obtain ⟨st', hrun, hg⟩ := array_refines_seq_partial E ops hsafe
+  obtain ⟨f, hf⟩ := hg.sim
+  have hblk : ∀ (b : Nat) (r : Raw α), st'.blocks[b]? = some (some r) → r.rc = st'.hs.count (some b) ∧ 0 < r.rc := by
+    intro b r hb
+    obtain ⟨_, _, _, _, _, _, h5, h6⟩ := hf.blk b r hb
+    exact ⟨h5, h6⟩
+  refine ⟨st', _, hrun, hf.sum, hblk, ?_⟩
+  intro hall
+  have hnone : ∀ (b : Nat) (r : Raw α), st'.blocks[b]? ≠ some (some r) := by
+    intro b r hb
+    obtain ⟨h5, h6⟩ := hblk b r hb
+    have hpos : 0 < st'.hs.count (some b) := by omega
+    obtain ⟨i, hi, hget⟩ := List.getElem_of_mem (List.count_pos_iff.mp hpos)
+    have hocc : st'.occ i = true := (occ_iff st' i).mpr ⟨b, by rw [List.getElem?_eq_getElem hi, hget]⟩
+    rw [hall i] at hocc; cases hocc
+  exact ⟨by rw [hf.sum, sumN_eq_zero _ hnone], hnone⟩
+
 end C01
